@@ -115,7 +115,24 @@ def drop_scripts(rng, n, trials):
         # nothing of the script touches the cache after the drop: only waits on the Futures of the burst follow
         for j, a in enumerate(waits):
             sc.add(cc.free_instant(sc.used_instants(), last + 48 + 16 * j), a[1], a[2])
-        sc.add(cc.free_instant(sc.used_instants(), last + rng.choice([4, 4, 20, sc.ne // 2 - (sc.ne // 2) % 16 + 4])), "D", 0)
+        td = cc.free_instant(sc.used_instants(), last + rng.choice([4, 4, 20, sc.ne // 2 - (sc.ne // 2) % 16 + 4]))
+        sc.add(td, "D", 0)
+        # calls that were already on their way when the handle was dropped: Loads (through the inner object) after the
+        # collection, of old and new keys; they too must return, and their Futures resolve
+        if i % 2 == 0:
+            fresh = [k for k in cc.KEY_POOL if k not in sc.keys]
+            rng.shuffle(fresh)
+            for j in range(rng.range(1, 3)):
+                if fresh and rng.chance(2, 3):     # a key never loaded before: a job must be submitted and run
+                    sc.keys.append(fresh.pop())
+                    sc.ld.append([(rng.choice([1, 17, sc.ne + 1]), 1, 0)])
+                    k = len(sc.keys) - 1
+                else:
+                    k = rng.below(n)
+                # early (workers still busy with the burst) or late (every worker has seen the close and gone)
+                maxdur = max(d for l in sc.ld for (d, _, _) in l)
+                off = 16 * rng.range(1, 4 * sc.ne // 16) if j == 0 and rng.chance(1, 2) else (n + 1) * maxdur + 16 * rng.range(1, 40)
+                sc.add(cc.free_instant(sc.used_instants(), td + off), "L", k)
         out.append(sc)
     return out
 
